@@ -204,3 +204,250 @@ Proof.
   rewrite (jc_loop_ok s Hs s [] [] false); [reflexivity|reflexivity|].
   rewrite zb_length. cbn [length]. lia.
 Qed.
+
+(* ------------------------------------------------------------------ *)
+(* GoCamelCase                                                         *)
+(* i+1 < len(s) && isASCIILower(s[i+1]), guarded by g *)
+Definition peekl (v_s : list Z) (g : bool) (v_i : Z) : outcome bool :=
+  if g && (wrap_i64 (v_i + 1) <? len v_s)
+  then bind (index v_s (wrap_i64 (v_i + 1))) (fun t => Val (go_isASCIILower t))
+  else Val false.
+(* c == '_' && (i == 0 || s[i-1] == '.') *)
+Definition startl (v_s : list Z) (v_c v_i : Z) : outcome bool :=
+  if v_c =? 95
+  then bind (if v_i =? 0 then Val true
+             else bind (index v_s (wrap_i64 (v_i - 1))) (fun t4 => Val (t4 =? 46))) (fun t5 => Val t5)
+  else Val false.
+
+(* the inner loop of the default arm; [k] is the rest of the outer loop *)
+Definition gc_inner (v_s : list Z) (k : list Z -> Z -> outcome (list Z)) :=
+  fix loop2 (lfuel2 : nat) (v_b : list Z) (v_i : Z) {struct lfuel2} : outcome (list Z) :=
+    match lfuel2 with
+    | O => Fuel
+    | S lfuel2' =>
+      bind (peekl v_s true v_i) (fun t10 =>
+      if t10 then
+        bind (index v_s (wrap_i64 (v_i + 1))) (fun t11 =>
+        loop2 lfuel2' (v_b ++ [t11]) (wrap_i64 (v_i + 1)))
+      else k v_b (wrap_i64 (v_i + 1)))
+    end.
+
+Definition gc_outer (v_s : list Z) :=
+  fix loop1 (lfuel : nat) (v_b : list Z) (v_i : Z) {struct lfuel} : outcome (list Z) :=
+    match lfuel with
+    | O => Fuel
+    | S lfuel' =>
+      if v_i <? len v_s then
+        bind (index v_s v_i) (fun v_c =>
+        bind (peekl v_s (v_c =? 46) v_i) (fun t3 =>
+        if t3 then loop1 lfuel' v_b (wrap_i64 (v_i + 1))
+        else if v_c =? 46 then loop1 lfuel' (v_b ++ [95]) (wrap_i64 (v_i + 1))
+        else
+          bind (startl v_s v_c v_i) (fun t6 =>
+          if t6 then loop1 lfuel' (v_b ++ [88]) (wrap_i64 (v_i + 1))
+          else
+            bind (peekl v_s (v_c =? 95) v_i) (fun t8 =>
+            if t8 then loop1 lfuel' v_b (wrap_i64 (v_i + 1))
+            else if go_isASCIIDigit v_c then loop1 lfuel' (v_b ++ [v_c]) (wrap_i64 (v_i + 1))
+            else if go_isASCIILower v_c then
+              gc_inner v_s (loop1 lfuel')
+                (S (length (v_b ++ [wrap_u8 (v_c - 32)]) + length v_s)) (v_b ++ [wrap_u8 (v_c - 32)]) v_i
+            else
+              gc_inner v_s (loop1 lfuel') (S (length (v_b ++ [v_c]) + length v_s)) (v_b ++ [v_c]) v_i))))
+      else Val v_b
+    end.
+
+Lemma go_GoCamelCase_shape s :
+  go_GoCamelCase s = gc_outer s (S (length (@nil Z) + length s)) [] 0.
+Proof. reflexivity. Qed.
+
+Lemma gc_inner_S s k fuel b i :
+  gc_inner s k (S fuel) b i =
+  bind (peekl s true i) (fun t10 =>
+  if t10 then bind (index s (wrap_i64 (i + 1))) (fun t11 => gc_inner s k fuel (b ++ [t11]) (wrap_i64 (i + 1)))
+  else k b (wrap_i64 (i + 1))).
+Proof. reflexivity. Qed.
+
+Lemma gc_outer_S s fuel b i :
+  gc_outer s (S fuel) b i =
+  if i <? len s then
+    bind (index s i) (fun v_c =>
+    bind (peekl s (v_c =? 46) i) (fun t3 =>
+    if t3 then gc_outer s fuel b (wrap_i64 (i + 1))
+    else if v_c =? 46 then gc_outer s fuel (b ++ [95]) (wrap_i64 (i + 1))
+    else
+      bind (startl s v_c i) (fun t6 =>
+      if t6 then gc_outer s fuel (b ++ [88]) (wrap_i64 (i + 1))
+      else
+        bind (peekl s (v_c =? 95) i) (fun t8 =>
+        if t8 then gc_outer s fuel b (wrap_i64 (i + 1))
+        else if go_isASCIIDigit v_c then gc_outer s fuel (b ++ [v_c]) (wrap_i64 (i + 1))
+        else if go_isASCIILower v_c then
+          gc_inner s (gc_outer s fuel)
+            (S (length (b ++ [wrap_u8 (v_c - 32)]) + length s)) (b ++ [wrap_u8 (v_c - 32)]) i
+        else
+          gc_inner s (gc_outer s fuel) (S (length (b ++ [v_c]) + length s)) (b ++ [v_c]) i))))
+  else Val b.
+Proof. reflexivity. Qed.
+
+(* (i == 0 || s[i-1] == '.') for i = len p *)
+Definition start_of (p : list byte) : bool :=
+  match rev p with [] => true | c :: _ => is_dot c end.
+Lemma start_of_snoc p c : start_of (p ++ [c]) = is_dot c.
+Proof. unfold start_of. now rewrite rev_unit. Qed.
+
+Lemma peekl_ok s p c r g : s = p ++ c :: r -> go_len_ok s ->
+  peekl (zb s) g (len p) = Val (g && next_is_lower r).
+Proof.
+  intros E Hs. unfold peekl. rewrite (step_i s p c r E Hs), len_zb.
+  destruct r as [|d r].
+  - replace (len (p ++ [c]) <? Z.of_nat (length s)) with false
+      by (subst s; unfold len; rewrite !app_length; cbn [length]; lia).
+    cbn [next_is_lower]. rewrite !andb_false_r. reflexivity.
+  - replace (len (p ++ [c]) <? Z.of_nat (length s)) with true
+      by (subst s; unfold len; rewrite !app_length; cbn [length]; lia).
+    rewrite andb_true_r. destruct g; [|reflexivity].
+    rewrite E, split_snoc, index_zb. cbn [bind next_is_lower]. now rewrite lower_zc.
+Qed.
+
+Lemma startl_ok s p c r : s = p ++ c :: r -> go_len_ok s ->
+  startl (zb s) (zc c) (len p) = Val (is_us c && start_of p).
+Proof.
+  intros E Hs. unfold startl. rewrite us_zc. destruct (is_us c); [|reflexivity]. cbn [andb].
+  destruct (rev p) as [|d q] eqn:R.
+  - apply (f_equal (@rev byte)) in R. rewrite rev_involutive in R. cbn in R. subst p.
+    reflexivity.
+  - apply (f_equal (@rev byte)) in R. rewrite rev_involutive in R. cbn [rev] in R.
+    unfold start_of. rewrite R, rev_unit.
+    replace (len (rev q ++ [d]) =? 0) with false by (rewrite len_snoc; unfold len; lia).
+    replace (wrap_i64 (len (rev q ++ [d]) - 1)) with (len (rev q)).
+    2:{ rewrite len_snoc. unfold go_len_ok in Hs. subst s p. rewrite !app_length in Hs. unfold len, wrap_i64. lia. }
+    rewrite E, R, <- app_assoc. cbn [app]. rewrite index_zb. cbn [bind]. now rewrite dot_zc.
+Qed.
+
+Lemma camel_aux_inword st r : next_is_lower r = false -> camel_aux st true r = camel_aux st false r.
+Proof.
+  destruct r as [|c r]; [reflexivity|]. cbn [next_is_lower camel_aux]. intros ->. reflexivity.
+Qed.
+
+Lemma gc_inner_ok s k : go_len_ok s -> forall r p c b fuel,
+  s = p ++ c :: r -> (length r < fuel)%nat -> is_dot c = false ->
+  (forall r' p' b', s = p' ++ r' -> (length r' <= length r)%nat -> start_of p' = false ->
+                    k b' (len p') = Val (b' ++ zb (camel_aux false false r'))) ->
+  gc_inner (zb s) k fuel b (len p) = Val (b ++ zb (camel_aux false true r)).
+Proof.
+  intros Hs. induction r as [|d r IH]; intros p c b fuel E Hf Hc K;
+    (destruct fuel as [|fuel]; [cbn [length] in Hf; lia|]);
+    rewrite gc_inner_S, (peekl_ok s p c _ true E Hs); cbn [bind andb next_is_lower];
+    rewrite (step_i s p c _ E Hs).
+  - rewrite (K [] (p ++ [c]) b); [reflexivity|now rewrite <- split_snoc|lia|].
+    now rewrite start_of_snoc.
+  - destruct (is_lower d) eqn:L.
+    + rewrite E at 1. rewrite split_snoc, index_zb. cbn [bind].
+      assert (Hd : is_dot d = false) by (clear - L; cls; lia).
+      rewrite (IH (p ++ [c]) d); [| now rewrite <- split_snoc | cbn [length] in Hf; lia | exact Hd |].
+      * cbn [camel_aux andb]. rewrite L. cbn [zb map]. rewrite <- app_assoc. reflexivity.
+      * intros r' p' b' E' Hl Hst. apply K; [exact E'|cbn [length]; lia|exact Hst].
+    + rewrite (K (d :: r) (p ++ [c]) b); [|now rewrite <- split_snoc|lia|now rewrite start_of_snoc].
+      rewrite camel_aux_inword; [reflexivity|]. cbn [next_is_lower]. exact L.
+Qed.
+
+Lemma gc_outer_ok s : go_len_ok s -> forall fuel r p b,
+  s = p ++ r -> (length r < fuel)%nat ->
+  gc_outer (zb s) fuel b (len p) = Val (b ++ zb (camel_aux (start_of p) false r)).
+Proof.
+  intros Hs. induction fuel as [|fuel IH]; intros r p b E Hf; [lia|].
+  rewrite gc_outer_S, len_zb. destruct r as [|c r].
+  - replace (len p <? Z.of_nat (length s)) with false by (subst s; unfold len; rewrite app_length; cbn [length]; lia).
+    cbn [camel_aux zb map]. now rewrite app_nil_r.
+  - replace (len p <? Z.of_nat (length s)) with true by (subst s; unfold len; rewrite app_length; cbn [length]; lia).
+    cbn [length] in Hf.
+    assert (NX : forall b', gc_outer (zb s) fuel b' (len (p ++ [c])) =
+                            Val (b' ++ zb (camel_aux (is_dot c) false r))).
+    { intros b'. rewrite (IH r (p ++ [c]) b'); [now rewrite start_of_snoc|now rewrite <- split_snoc|lia]. }
+    rewrite E at 1. rewrite index_zb. cbn [bind].
+    rewrite (peekl_ok s p c r _ E Hs). cbn [bind].
+    rewrite dot_zc, us_zc, digit_zc, lower_zc, (step_i s p c r E Hs).
+    cbn [camel_aux andb].
+    destruct (is_dot c) eqn:D; cbn [andb].
+    + destruct (next_is_lower r) eqn:NL.
+      * rewrite NX. reflexivity.
+      * rewrite NX. cbn [zb map]. rewrite <- app_assoc. reflexivity.
+    + rewrite (startl_ok s p c r E Hs). cbn [bind].
+      destruct (is_us c) eqn:U; cbn [andb].
+      * destruct (start_of p) eqn:ST.
+        -- rewrite NX. cbn [zb map]. rewrite <- app_assoc. reflexivity.
+        -- rewrite (peekl_ok s p c r _ E Hs). cbn [bind andb].
+           destruct (next_is_lower r) eqn:NL; [rewrite NX; reflexivity|].
+           assert (DG : is_digit c = false) by (clear - U; cls; lia).
+           assert (LW : is_lower c = false) by (clear - U; cls; lia).
+           rewrite DG, LW.
+           rewrite (gc_inner_ok s _ Hs r p c); [| exact E | rewrite app_length, zb_length; subst s; rewrite app_length; cbn [length]; lia | exact D |].
+           ++ rewrite <- app_assoc. reflexivity.
+           ++ intros r' p' b' E' Hl Hst. rewrite (IH r' p' b' E'); [now rewrite Hst|lia].
+      * rewrite (peekl_ok s p c r _ E Hs). cbn [bind andb].
+        destruct (is_digit c) eqn:DG.
+        -- rewrite NX. cbn [zb map]. rewrite <- app_assoc. reflexivity.
+        -- destruct (is_lower c) eqn:LW.
+           ++ rewrite (to_upper_zc c LW).
+              rewrite (gc_inner_ok s _ Hs r p c); [| exact E | rewrite app_length, zb_length; subst s; rewrite app_length; cbn [length]; lia | exact D |].
+              ** rewrite <- app_assoc. reflexivity.
+              ** intros r' p' b' E' Hl Hst. rewrite (IH r' p' b' E'); [now rewrite Hst|lia].
+           ++ rewrite (gc_inner_ok s _ Hs r p c); [| exact E | rewrite app_length, zb_length; subst s; rewrite app_length; cbn [length]; lia | exact D |].
+              ** rewrite <- app_assoc. reflexivity.
+              ** intros r' p' b' E' Hl Hst. rewrite (IH r' p' b' E'); [now rewrite Hst|lia].
+Qed.
+
+Theorem go_GoCamelCase_eq s : go_len_ok s ->
+  go_GoCamelCase (zb s) = Val (zb (go_camel_case s)).
+Proof.
+  intros Hs. rewrite go_GoCamelCase_shape.
+  change 0 with (len (@nil byte)). unfold go_camel_case.
+  rewrite (gc_outer_ok s Hs _ s [] []); [reflexivity|reflexivity|].
+  rewrite zb_length. cbn [length]. lia.
+Qed.
+
+(* ------------------------------------------------------------------ *)
+(* property-level statements about the translated source               *)
+Lemma json_camel_aux_length : forall s w, (length (json_camel_aux w s) <= length s)%nat.
+Proof.
+  induction s as [|c r IH]; intros w; [reflexivity|]. cbn [json_camel_aux length].
+  destruct (is_us c); [specialize (IH true)|specialize (IH false)]; cbn [length]; lia.
+Qed.
+
+(* the translated GoCamelCase maps every protobuf identifier to an exported Go
+   identifier: non-empty, first byte an upper-case ASCII letter (as decided by
+   the translated isASCIIUpper), all bytes in [A-Za-z0-9_] *)
+Theorem go_GoCamelCase_exported_identifier s : go_len_ok s -> proto_ident s = true ->
+  exists c r, go_GoCamelCase (zb s) = Val (zb (c :: r)) /\ go_isASCIIUpper (zc c) = true /\
+              forallb is_letter_digit_b (c :: r) = true.
+Proof.
+  intros Hs H. destruct (camel_exported_identifier s H) as (c & r & E & U & F).
+  exists c, r. rewrite (go_GoCamelCase_eq s Hs), E, upper_zc. auto.
+Qed.
+
+(* JSONSnakeCase(JSONCamelCase(s)) == s in the translated source, exactly when
+   s has no upper-case letter and every '_' is followed by a lower-case letter *)
+Theorem go_snake_camel_inverse s : go_len_ok s ->
+  (bind (go_JSONCamelCase (zb s)) go_JSONSnakeCase = Val (zb s) <-> snake_ok s = true).
+Proof.
+  intros Hs. rewrite (go_JSONCamelCase_eq s Hs). cbn [bind].
+  rewrite go_JSONSnakeCase_eq.
+  2:{ unfold go_len_ok in *. unfold json_camel_case. pose proof (json_camel_aux_length s false). lia. }
+  rewrite <- snake_camel_inverse. split.
+  - intros [= H]. now apply zb_inj.
+  - intros ->. reflexivity.
+Qed.
+
+(* none of the translated functions can panic (index out of range) or run out
+   of the fuel the translation gave its loops *)
+Theorem go_strs_total s : go_len_ok s ->
+  (exists o, go_GoCamelCase (zb s) = Val o) /\ (exists o, go_JSONCamelCase (zb s) = Val o) /\
+  (exists o, go_JSONSnakeCase (zb s) = Val o).
+Proof.
+  intros Hs. rewrite (go_GoCamelCase_eq s Hs), (go_JSONCamelCase_eq s Hs), (go_JSONSnakeCase_eq s Hs). repeat split; eexists; reflexivity.
+Qed.
+
+Theorem go_isASCII_eq c :
+  go_isASCIILower (zc c) = is_lower c /\ go_isASCIIUpper (zc c) = is_upper c /\ go_isASCIIDigit (zc c) = is_digit c.
+Proof. auto using lower_zc, upper_zc, digit_zc. Qed.
